@@ -115,7 +115,7 @@ theorem node_abs_eq (rnf : Bool) (F r : Flow) (M : Maps) (ns : Array NodeM) (j :
       exact this
     have hact : (toRRow c).act = c.row.action := by
       simp only [nodeRowOk, Bool.or_eq_true] at hfc
-      rcases hfc with (h1 | h1) | h1
+      rcases hfc with ((h1 | h1) | h1) | h1
       · simp only [plainActionRow, Bool.and_eq_true, decide_eq_true_eq] at h1
         exact h1.2.symm
       · simp only [switchRow, Bool.and_eq_true] at h1
@@ -124,6 +124,8 @@ theorem node_abs_eq (rnf : Bool) (F r : Flow) (M : Maps) (ns : Array NodeM) (j :
       · simp only [fixedRow, Bool.and_eq_true] at h1
         have := fixed_type h1.1.1.1
         rcases kindOf_fixed this with h2 | h2 | h2 <;> rw [hk] at h2 <;> cases h2
+      · simp only [randomRow, Bool.and_eq_true, decide_eq_true_eq] at h1
+        have h2 := kindOf_random; rw [← h1.1.1.1, hk] at h2; cases h2
     rw [mkNode_plain j (toRRow c) (es) hk hbl, absNode_plain_ref,
       absNode_plain_cmp _ _ n c.row.action hp.router hp.acts, hact]
     congr 2
@@ -132,7 +134,7 @@ theorem node_abs_eq (rnf : Bool) (F r : Flow) (M : Maps) (ns : Array NodeM) (j :
   | sw rr hk hp =>
     have hact : (toRRow c).act = none := by
       simp only [nodeRowOk, Bool.or_eq_true] at hfc
-      rcases hfc with (h1 | h1) | h1
+      rcases hfc with ((h1 | h1) | h1) | h1
       · simp only [plainActionRow, Bool.and_eq_true, Bool.not_eq_true'] at h1
         have := kindOf_action h1.1.1.1
         rcases hk with h2 | h2 | h2 <;> rw [this] at h2 <;> cases h2
@@ -141,6 +143,8 @@ theorem node_abs_eq (rnf : Bool) (F r : Flow) (M : Maps) (ns : Array NodeM) (j :
       · simp only [fixedRow, Bool.and_eq_true] at h1
         have := fixed_type h1.1.1.1
         rcases kindOf_fixed this with h3 | h3 | h3 <;> rcases hk with h2 | h2 | h2 <;> rw [h3] at h2 <;> cases h2
+      · simp only [randomRow, Bool.and_eq_true, Option.isNone_iff_eq_none] at h1
+        exact h1.2
     -- identifiers of the compiled router are pairwise different
     have hfn := hfn0
     have hrids : rr.ids.Nodup := by
@@ -256,7 +260,7 @@ theorem node_abs_eq (rnf : Bool) (F r : Flow) (M : Maps) (ns : Array NodeM) (j :
   | fix rr sc hk hp =>
     have hact : (toRRow c).act = some (c.row.ownAction.getD []) := by
       simp only [nodeRowOk, Bool.or_eq_true] at hfc
-      rcases hfc with (h1 | h1) | h1
+      rcases hfc with ((h1 | h1) | h1) | h1
       · simp only [plainActionRow, Bool.and_eq_true, Bool.not_eq_true'] at h1
         have := kindOf_action h1.1.1.1
         rcases hk with h2 | h2 | h2 <;> rw [this] at h2 <;> cases h2
@@ -265,10 +269,37 @@ theorem node_abs_eq (rnf : Bool) (F r : Flow) (M : Maps) (ns : Array NodeM) (j :
         rcases kindOf_switch this with h3 | h3 | h3 <;> rcases hk with h2 | h2 | h2 <;> rw [h3] at h2 <;> cases h2
       · simp only [fixedRow, Bool.and_eq_true, decide_eq_true_eq] at h1
         exact h1.2
+      · simp only [randomRow, Bool.and_eq_true, decide_eq_true_eq] at h1
+        have h3 := kindOf_random; rw [← h1.1.1.1] at h3
+        rcases hk with h2 | h2 | h2 <;> rw [h3] at h2 <;> cases h2
     have hk' : isFixedKind (toRRow c).kind := hk
     rw [absNode_fix_ref rnf r j (toRRow c) es hk', absNode_fix_cmp rnf F M ns n c es rr sc hk hp hfn0, hact]
     rw [dm _ _ (hlast _ (hfil _ _ hall)) hp.succ, dm _ _ (hlast _ (hfil _ _ hall)) hp.dflt, lastTgt_eq, lastTgt_eq]
     rfl
+  | rnd rr hk hp =>
+    have hact : (toRRow c).act = none := by
+      simp only [nodeRowOk, Bool.or_eq_true] at hfc
+      rcases hfc with ((h1 | h1) | h1) | h1
+      · simp only [plainActionRow, Bool.and_eq_true, Bool.not_eq_true'] at h1
+        have := kindOf_action h1.1.1.1
+        rw [this] at hk; cases hk
+      · simp only [switchRow, Bool.and_eq_true, Option.isNone_iff_eq_none] at h1
+        exact h1.2
+      · simp only [fixedRow, Bool.and_eq_true] at h1
+        have := fixed_type h1.1.1.1
+        rcases kindOf_fixed this with h3 | h3 | h3 <;> rw [h3] at hk <;> cases hk
+      · simp only [randomRow, Bool.and_eq_true, Option.isNone_iff_eq_none] at h1
+        exact h1.2
+    have hk' : (toRRow c).kind = .splitRandom := hk
+    rw [absNode_rnd_ref rnf r j (toRRow c) es hk' hact, absNode_rnd_cmp rnf F n rr c.row.saveName hp.router hp.acts hp.rname hfn0]
+    congr 1
+    refine (forall2_map_eq_mem hp.rel ?_).symm
+    intro cat b hb hd
+    refine dm _ _ ?_ hd.1
+    intro k hk2
+    simp only [Option.some.injEq] at hk2
+    obtain ⟨e, he, het⟩ := buckets_tgt es b hb
+    exact ⟨e, he, by rw [het]; exact hk2⟩
 
 theorem zipIdx_filterMap {α β} (F : α → Nat → Option β) : ∀ (l : List α) (k : Nat),
     (l.zipIdx k).filterMap (fun p => F p.1 p.2) =
